@@ -302,7 +302,52 @@ def main(tier, seed):
             chk.violation(c["name"], "%s: %s from %s together with %s from %s does not give the output of both keys in config.toml (%s)" % (
                 c["backend"], c["keys"][0], c["sources"][0], c["keys"][1], c["sources"][1], "tool failed: " + e1 if rc1 != 0 else "outputs differ"),
                 {"case": {k: v for k, v in c.items()}, "dir": os.path.join(base, c["name"])})
+    # ---- two different *shared* settings scoped to one language (seed C17-g: the second scoped key of a language replaced the first).
+    # Both effects are read back directly (the both-in-the-file reference above goes through the same code and would agree with a
+    # wrong run): the scoped lib_name must be in the output *and* the scoped unsafe_references_in_callbacks must decide acceptance.
+    dcases = []
+    for backend in ("kotlin", "nanobind"):
+        for s1 in SOURCES:
+            for s2 in SOURCES:
+                for first in (0, 1):
+                    for flag in (True, False):
+                        a = (s1, "%s.lib_name" % backend, "scoped%s%s" % (s1, s2))
+                        b = (s2, "%s.unsafe_references_in_callbacks" % backend, flag)
+                        settings = ([a, b] if first == 0 else [b, a]) + [("file", "lib_name", "sharedlib"), ("cli", "unsafe_references_in_callbacks", not flag)]
+                        if backend == "kotlin":
+                            settings.append(("file", "kotlin.domain", "dev.vf"))
+                        dcases.append(dict(name="scoped2_%s_%s_%s_%d_%d" % (backend, s1, s2, first, flag), backend=backend, settings=settings, flag=flag,
+                                           lib=a[2], sources=(s1, s2)))
+
+    def done(c):
+        d = os.path.join(base, c["name"])
+        entry, cfgp, cli = build_inputs(d, c["backend"], c["settings"], False, with_cb=True)
+        rc, o, e = toolrun.run_tool(c["backend"], entry, os.path.join(d, "out"), config_file=cfgp, configs=cli)
+        kind, det = toolrun.classify_tool(rc, e)
+        if kind == "lowering" and any("Callbacks cannot take references" in m for _, m in det):
+            return c, False, None, e[-300:]
+        if kind != "ok":
+            return c, "tool %s" % kind, None, e[-300:]
+        out = os.path.join(d, "out")
+        if c["backend"] == "kotlin":
+            ob = obs_kotlin(out)
+            lib = ob["lib_name_load"] if ob and ob["lib_name_load"] == ob["lib_name_dir"] else ob
+        else:
+            ob = obs_nanobind(out)
+            lib = ob["lib_name_file"] if ob else None
+        return c, True, lib, ""
+    dres = pmap(done, dcases)
+    for c, accepted, lib, err in dres:
+        if accepted != c["flag"]:
+            chk.violation(c["name"], "%s: %s.unsafe_references_in_callbacks=%s (from %s) next to %s.lib_name (from %s): references in callbacks %s" % (
+                c["backend"], c["backend"], c["flag"], c["sources"][1], c["backend"], c["sources"][0],
+                "rejected" if accepted is False else "accepted" if accepted is True else accepted), {"case": c, "stderr": err, "dir": os.path.join(base, c["name"])})
+        elif accepted is True and lib != c["lib"]:
+            chk.violation(c["name"], "%s: %s.lib_name=%s (from %s) next to %s.unsafe_references_in_callbacks (from %s): the output shows lib name %r" % (
+                c["backend"], c["backend"], c["lib"], c["sources"][0], c["backend"], c["sources"][1], lib), {"case": c, "dir": os.path.join(base, c["name"])})
     keys = set()
+    for c, _, _, _ in dres:
+        keys.add((c["backend"], "scoped lib_name + scoped unsafe refs", c["sources"], c["flag"]))
     for c, _ in xres:
         keys.add((c["backend"], c["keys"], c["sources"]))
     for c, observed, err in results:
@@ -310,7 +355,7 @@ def main(tier, seed):
         if observed != c["expect"]:
             chk.violation(c["name"], "%s %s: expected effective value %r (%s) but the output shows %r" % (c["backend"], c["key"], c["expect"], c["why"], observed),
                           {"case": {k: v for k, v in c.items()}, "observed": observed, "stderr": err, "dir": os.path.join(base, c["name"])})
-    chk.evaluations = len(results) + len(refs) + 2 * len(xres)
+    chk.evaluations = len(results) + len(refs) + 2 * len(xres) + len(dres)
     chk.distinct = keys
     chk.exhaustive = True
     chk.rule = ("for lib_name (kotlin, nanobind): every non-empty subset of the six (source in file/cli/attribute) x (shared/language-scoped) slots with "
@@ -319,7 +364,9 @@ def main(tier, seed):
                 "kotlin/nanobind/c/cpp; file keys alternate kebab/snake case, attribute values alternate quoted/bare. Effective value read back from "
                 "the output (package path, Native.load, <lib>_ext.cpp, acceptance of &Opaque in callbacks, digest equal to a single-source reference). "
                 "Pairs of different keys (demo_gen.module_name / relative_js_path / explicit_generation, kotlin lib_name / domain / finalizers, nanobind lib_name / "
-                "unsafe refs) in every ordered pair of sources must give the output of both keys in config.toml. "
+                "unsafe refs) in every ordered pair of sources must give the output of both keys in config.toml; <lang>.lib_name next to "
+                "<lang>.unsafe_references_in_callbacks (two shared settings scoped to one language, every ordered pair of sources, both orders, both "
+                "flag values, opposite shared values present) with both effects read back directly. "
                 "distinct_nontrivial = distinct (backend, key, set of (source, spelled key)) combinations.")
     chk.extra = {"cases": len(cases), "reference_runs": len(refs), "keys": sorted({c["key"] for c in cases})}
     for c, observed, err in results[:2] + results[200:201]:
